@@ -33,7 +33,7 @@ func (p *Parser) parseWithStatement() (ast.Statement, error) {
 				fmt.Sprintf("error parsing CTE definition: %v", err),
 				models.Location{},
 				"",
-			)
+			).WithCause(err)
 		}
 		ctes = append(ctes, cte)
 
@@ -58,7 +58,7 @@ func (p *Parser) parseWithStatement() (ast.Statement, error) {
 			fmt.Sprintf("error parsing statement after WITH clause: %v", err),
 			models.Location{},
 			"",
-		)
+		).WithCause(err)
 	}
 
 	// Attach WITH clause to the main statement
@@ -196,7 +196,7 @@ func (p *Parser) parseCommonTableExpr() (*ast.CommonTableExpr, error) {
 			fmt.Sprintf("error parsing CTE subquery: %v", err),
 			models.Location{},
 			"",
-		)
+		).WithCause(err)
 	}
 
 	if !p.isType(models.TokenTypeRParen) {
